@@ -25,20 +25,24 @@ for d in sorted(glob.glob(os.path.join(root, "seeded", "*", "meta.json"))):
                                            what, note.replace("|", "/")[:170]))
 sec = """### 0.2 Seeded code changes and the checks that catch them
 
-%d independent changes (two to three per property) were written by sub-agents that were given only the property
+%d independent changes (four rounds, four per property) were written by sub-agents that were given only the property
 text and a scratch worktree; each was confirmed in a scratch worktree (`tools/seedverify.sh`: the test-suite
 still reports 988 passed, the demo exits 0 without and 1 with the change) and is kept under `seeded/<id>/`.
 `tools/seedtest.sh` applies one to `/repo`, runs the named checks and restores the tree; `tools/seedall.sh`
 does that for all of them.  %s
+The last full regression (all %d, the checks as committed at the end, each change applied to a scratch worktree of the
+repository that the checks read through `YP_REPO`) reported every one of them again.
 Where a check first MISSED a change, the generator / judge / model was strengthened until it was caught (last
 column); where a `fix:` commit rewrote the lines a patch touched, the same change was re-made by hand
 (`patch_original.diff` keeps what the sub-agent delivered).
 
 | id | caught by | what the change breaks | note |
 |---|---|---|---|
-""" % (len(rows), ("Every one is reported with `VIOLATION`; %d of them only through a broken tie (`no-failing-input-found`), all others "
-        "with a concrete failing input." % n_tie) if not n_missed else
-       "%d of them are NOT caught by any check (rows marked so); they are kept as open gaps." % n_missed)
+""" % (len(rows),
+       ("Every one is reported with `VIOLATION`; %d of them only through a broken tie (`no-failing-input-found`), all "
+        "others with a concrete failing input." % n_tie) if not n_missed else
+       "%d of them are NOT caught by any check (rows marked so); they are kept as open gaps." % n_missed,
+       len(rows))
 sec += "\n".join(rows) + "\n\n"
 p = os.path.join(root, "DESIGN.md")
 s = open(p).read()
